@@ -25,6 +25,7 @@ inductive SimFault where
   | slotOob           -- `scheduled_action[machine.into_raw()]` out of bounds
   | fw (f : Fault)    -- panic inside the framework
   | fuel              -- `pick_next` recursion fuel exhausted (never: see C19)
+  | diverge           -- `pick_next` would recurse forever (aggregate-delay branch with nothing to pop)
   deriving Repr, DecidableEq, Inhabited
 
 /-- `Instant::duration_since` / `Instant - Instant`: saturating at zero.  `std::time::Instant`
